@@ -3440,6 +3440,18 @@ class IPCone:
             return constr
 
 
+def mark_declared(support, sup_model):
+    """
+    Record on a compiled uncertainty set how many random variables were
+    declared when it was compiled: later columns of the set are auxiliary
+    variables, and random variables declared later are not part of it.
+    """
+
+    if support is not None and not hasattr(support, 'num_declared'):
+        last_var = sup_model.vars[-1]
+        support.num_declared = last_var.first + last_var.size
+
+
 class RoConstr:
     """
     The Roaffine class creats an object of uncertain affine functions.
@@ -3490,6 +3502,7 @@ class RoConstr:
             sup_model.st(item)
 
         self.support = sup_model.do_math(primal=False, obj=False)
+        mark_declared(self.support, sup_model)
 
         return self
 
@@ -3501,13 +3514,16 @@ class RoConstr:
             raise RuntimeError('The support of random variables is undefined.')
         size_support = support.linear.shape[1]
         unrestricted = []
-        if num_rand > support.linear.shape[0]:
+        # columns of the set: the random variables declared when it was
+        # compiled (its auxiliary columns come after them)
+        declared = getattr(support, 'num_declared', support.linear.shape[0])
+        if num_rand > declared:
             # random variables declared after the set was compiled are not
             # restricted by it: their coefficients must vanish
-            tail = self.raffine[:, support.linear.shape[0]:]
+            tail = self.raffine[:, declared:]
             if tail.linear.nnz > 0 or np.any(tail.const):
                 unrestricted = [tail == 0]
-        num_rand = min(num_rand, support.linear.shape[0])
+        num_rand = min(num_rand, declared)
 
         dual_var = self.dec_model.dvar((num_constr, size_support))
 
